@@ -237,6 +237,45 @@ CLAIMS['C08'] = dict(
          'validation); axis order (ADF11 reshape((n_te, n_ne)) + swapaxes, ADF15 reshape((n_ne, n_te)), ADF2x sv[:, density]).',
     technique='abstract tracing of install routes (producer/consumer dict-shape agreement), structural conversion-chain matching, sibling agreement, regex group counting via re.compile')
 
+# ---- rules added after the seeding and refactoring campaigns (DESIGN.md 10.6, 10.7); appended to the claim texts
+_ADD = {
+ 'C01': 'Also: a cached field written only under a condition is reset by _change, populate routines do not go through configuration setters (R3b); '
+        'subscriptions are added after the old one is removed (R4); a notification or rebuild stands after the assignment it announces (R1); the '
+        'Notifier never mutates its callback list while iterating it (R7).',
+ 'C02': 'Also: the Gauss quadrature table is rebuilt for every change of its order range (R6); a component carrying a share of the radiance is '
+        'never given zero width; components skipped inside a loop lose their share (loop continue semantics).',
+ 'C03': 'Also applies the cache/notification rules of C01 to the passive emission models (reported as C03-via-C01).',
+ 'C04': 'Also: Beam.direction is decided per path (the axis is returned only where the documented field is the axis); the sample points and the beam '
+        'direction are taken to plasma coordinates with the same transform; applies the rules of C01 to Beam and the attenuator (C04-via-C01).',
+ 'C05': 'Also: per-state population lists are created afresh for every excited state (R5); emission, weighted mean and z_effective are decided on '
+        'the values each path returns, whatever the spelling; applies the rules of C01 to the beam models and the composition (C05-via-C01).',
+ 'C06': 'Also: in multi-file updates the content written to each file is rebuilt on every path of that iteration (R9); tables are stored as given, '
+        'only type conversions between input and stored record (R10).',
+ 'C07': 'Also: single-point branches of an interpolant agree with the full-grid branch in axis, argument position, table slice and length test (R7); '
+        'evaluate() is non-negative by construction (R8); memo dictionaries held by the provider are keyed at the granularity the value uses (K).',
+ 'C08': 'The ADF11 converter is decided by abstract interpretation of its loops (any spelling); axis order by affine index maps; the ADF15 reading '
+        'loops by a structural recogniser; the fixed-width field bounds algebraically.',
+ 'C10': 'Also: every field a ray-transfer pipeline or pixel processor accumulates into is re-initialised when an observation starts (R5).',
+ 'C11': 'The SART update is decided on the value stored on every path (array roles derived by dataflow); the stacked system by block-matrix abstract '
+        'evaluation (vstack / concatenate / transposes / row selections are interpreted).',
+ 'C12': 'The LCFS mask is decided per path (inside exactly when polygon > 0 and psi_n <= 1 were both established); a bare interpolant as psi_normalised '
+        'is a violation; applies the wrapper rules of C13 to the mappers, mask and clamp the equilibrium is built from (C12-via-C13).',
+ 'C13': 'Also: the polygon mask takes its triangles only from triangulate2d(vertices) (R4); a rotation written out component-wise is compared with '
+        'the documented rotation algebraically and must be guarded off the axis; the floor form of the remainder is analysed like the fmod form.',
+ 'C14': 'Also: a sample is normalised once, when first computed, and every axis of the cache grid has at least two nodes (R5).',
+ 'C15': 'Also: parenting and the membership update happen for every accepted member (not under another condition). Rules read flattened bodies.',
+ 'C16': 'Also: a reset of a lazy setting is unconditional (or conditional on "value changed"); calibrate and the spectral settings are decided on '
+        'normalised bodies (loop-carried integration limits, narrowest pixel over all pixels).',
+ 'C17': 'Area, centroid and volume are decided on the values the code computes for polygons of 3, 4 and 5 symbolic vertices on every path.',
+ 'C19': 'Lookups are decided by interpreting lookup_element / lookup_isotope on probe arguments for every object (any letter case; element + mass '
+        'number); a field compared through a function of its value while hashed raw is a violation.',
+ 'C20': 'Also: dx derives from x-axis quantities only and dy from y-axis quantities only (axis tags, R1a); shared operator caches are keyed by every '
+        'argument (K).',
+}
+for _p, _t in _ADD.items():
+    if _p in CLAIMS:
+        CLAIMS[_p]['text'] = CLAIMS[_p]['text'] + ' ' + _t
+
 # ---- everything not claimed above is pending / not applicable
 _pending = 'check not built yet in this session (see DESIGN.md build order); not claimed until it is'
 for _p in ['C%02d' % i for i in range(1, 21)]:
